@@ -1,4 +1,4 @@
-import I18nVerif.Model.Value
+import I18nVerif.Model.Check
 /-!
 # Spec for C03 — fallback along the `inherits` chain, then the default locale
 
@@ -28,5 +28,32 @@ def walk (inherits : List (Str × Str)) (dflt : Str) (defined : Str → Bool) :
 
 def effective (inherits : List (Str × Str)) (dflt : Str) (defined : Str → Bool) (l : Str) : Str :=
   walk inherits dflt defined (inherits.length + 1) l []
+
+/-! ### which locales define a key (presence pattern), which builder key is a leaf -/
+
+/-- the value `cur` (of a locale, after `reduce`) does not define the key path `p` below it:
+    it is `null`, or it is a group that does not define `p` -/
+def undefinedAtPath : List (Str × PV) → List Str → Bool
+  | _, [] => false
+  | keys, k :: rest =>
+    match AMap.get? k keys with
+    | none => true                                    -- absent
+    | some v =>
+      match Reduce.reduce v with
+      | .ok .dflt => true                             -- `null`
+      | .ok (.subkeys (some l)) => undefinedAtPath l.keys rest
+      | _ => false
+
+/-- one level: key `k` is absent or `null` -/
+def undefinedAt (keys : List (Str × PV)) (k : Str) : Bool := undefinedAtPath keys [k]
+
+/-- the leaf (a plain value key) of a builder-key tree at a key path -/
+def leafAt : Check.BKI → List Str → Option (Check.IOL × Check.Defaults)
+  | _, [] => none
+  | bki, k :: rest =>
+    match AMap.get? k bki with
+    | some (.value iol d) => (match rest with | [] => some (iol, d) | _ :: _ => none)
+    | some (.subkeys _ keys) => leafAt keys rest
+    | none => none
 
 end I18nVerif.Spec.Fallback
